@@ -430,6 +430,24 @@ def sweep(jobs=16, only=None):
                 print(done, file=sys.stderr)
 
 
+def recheck(jobs=16):
+    """Re-run only the checks (no suite) on the mutants that were silent and passed the suite."""
+    rs = load()
+    todo = {r['id'] for r in rs if r['exit'] != 1 and r.get('suite', 'pass') == 'pass'} | {r['id'] for r in rs if r['exit'] == 2}
+    ms = {m['id']: m for m in gen()}
+    out = {}
+    with cf.ThreadPoolExecutor(jobs) as ex:
+        for res in ex.map(lambda i: run_one(ms[i], with_suite=False), sorted(todo)):
+            out[res['id']] = res
+    path = os.path.join(OUT, 'results.jsonl')
+    with open(path, 'w') as f:
+        for r in rs:
+            if r['id'] in out:
+                n = out[r['id']]
+                r['exit'], r['fired'], r['errors'] = n['exit'], n['fired'], n['errors']
+            f.write(json.dumps(r) + '\n')
+
+
 def load():
     return [json.loads(l) for l in open(os.path.join(OUT, 'results.jsonl'))]
 
@@ -477,6 +495,8 @@ if __name__ == '__main__':
         jobs = int(a[a.index('--jobs') + 1]) if '--jobs' in a else 16
         only = set(x for x in a[1:] if x.startswith('M')) or None
         sweep(jobs, only)
+    elif a[0] == 'recheck':
+        recheck(int(a[a.index('--jobs') + 1]) if '--jobs' in a else 16)
     elif a[0] == 'report':
         report()
     elif a[0] == 'show':
